@@ -395,18 +395,32 @@ Proof. refute M_casefold. Qed.
 Lemma refuted_assocname : exists M order, wfM M = true /\ topo M order /\ wf_table_names_unique (gen M order) = false.
 Proof. refute M_assocname. Qed.
 
-(* C06-i: a class whose direct base is an unmapped intermediate class.  ORMatic orders the tables by direct-base edges
-   only, so an order that respects those edges may still emit the derived DAO before its parent DAO *)
+(* C06-i (repaired by 280300b): ORMatic now also orders a class after the first mapped class of its MRO, so every
+   topological order of its inheritance graph is parents-first along parent_table *)
+Lemma graph_parents_first_parents_first M : forall order seen,
+  graph_parents_first M seen order = true -> parents_first M seen order = true.
+Proof.
+  induction order as [|c r IH]; intros seen H; simpl in *; auto.
+  apply andb_true_iff in H. destruct H as [H H2]. apply andb_true_iff in H. destruct H as [_ H1].
+  apply andb_true_iff. split; auto.
+Qed.
+
+Theorem impl_order_topo M order : impl_order M order -> topo M order.
+Proof. intros [A [B C]]. split; auto. split; auto. now apply graph_parents_first_parents_first. Qed.
+
+Theorem emission_parents_first M order : impl_order M order -> wf_bases_first [] (s_tables (gen M order)) = true.
+Proof. intros H. apply bases_first. now apply impl_order_topo. Qed.
+
 Definition M_unmapped : cmodel :=
   [kls "Animal" [] [fld "n" SPlain (EB BInt)]; kls "Dog" ["MixDog"; "Animal"] [fld "g" SPlain (EB BBool)]].
-Lemma refuted_unmappedorder : exists M order, wfM M = true /\ inF M = true /\ (forall c, In c order <-> In c M)
-  /\ NoDup (map c_name order) /\ direct_parents_first M [] order = true
-  /\ wf_bases_first [] (s_tables (gen M order)) = false.
-Proof.
-  exists M_unmapped, (rev M_unmapped). split; [vm_compute; reflexivity|]. split; [vm_compute; reflexivity|].
-  split; [intros c; rewrite <- in_rev; tauto|]. split; [apply str_nodup_NoDup; vm_compute; reflexivity|].
-  split; vm_compute; reflexivity.
-Qed.
+(* regression example: the order that used to be admissible (it respects the direct-base edges: Dog's direct base is
+   unmapped) and puts DogDAO before AnimalDAO is no longer a topological order of the graph *)
+Lemma fixed_unmappedorder : wfM M_unmapped = true /\ inF M_unmapped = true
+  /\ direct_parents_first M_unmapped [] (rev M_unmapped) = true
+  /\ wf_bases_first [] (s_tables (gen M_unmapped (rev M_unmapped))) = false
+  /\ graph_parents_first M_unmapped [] (rev M_unmapped) = false
+  /\ graph_parents_first M_unmapped [] M_unmapped = true.
+Proof. repeat split; vm_compute; reflexivity. Qed.
 (* with a parents-first order the same model is fine: the parent is found past the unmapped class and the root is polymorphic *)
 Lemma unmapped_ok : topo M_unmapped M_unmapped /\ parent_of M_unmapped (kls "Dog" ["MixDog"; "Animal"] [fld "g" SPlain (EB BBool)]) <> None
   /\ schema_wf (gen M_unmapped M_unmapped) = true /\ model_obs (gen M_unmapped M_unmapped) = spec_obs M_unmapped.
